@@ -251,3 +251,39 @@ Lemma lifetime_counted_twice_refuted :
   (check_payload w_mac w_secret_a 300 (1450 * giga) (generate_payload_seconds w_mac w_secret_a w_nonce 300 (1000 * giga)) = Ok true) /\
   (check_payload w_mac w_secret_a 300 (1250 * giga) (generate_payload w_mac w_secret_a w_nonce 300 (1000 * giga)) = Ok true).
 Proof. repeat split; vm_compute; reflexivity. Qed.
+
+(** * CheckPayload looking at the hex-decoding error only when the length is not 32 (seeded mutant
+      C19-r5m1): encoding/hex returns the bytes decoded before the error, so a genuine payload
+      followed by one more hex digit, or by a non-hex tail of one or two characters, passes. *)
+Fixpoint hex_decode_prefix (l : bytes) : bytes * bool :=      (* decoded prefix, error? *)
+  match l with
+  | [] => ([], false)
+  | [_] => ([], true)
+  | a :: b :: t =>
+      match nib a, nib b with
+      | Some x, Some y => let '(r, e) := hex_decode_prefix t in ((16 * x + y)%N :: r, e)
+      | _, _ => ([], true)
+      end
+  end.
+
+Definition check_payload_lenient (hmac : bytes -> bytes -> bytes) (secret : bytes) (lifetime now : Z)
+           (payload : bytes) : res bool :=
+  let '(b, e) := hex_decode_prefix payload in
+  if negb (Nat.eqb (length b) 32) then Ok false
+  else
+    let mac := hmac secret (firstn 16 b) in
+    if (length mac <? 16)%nat then Panic PSlice
+    else if negb (beqb (skipn 16 b) (firstn 16 mac)) then Ok false
+    else Ok (negb (expired now (to_int64 (be_val (firstn 8 (skipn 8 b)))) lifetime)).
+
+Definition w_payload : bytes := generate_payload w_mac w_secret_a w_nonce 300 (1000 * giga).
+
+Lemma lenient_hex_refuted :
+  (check_payload w_mac w_secret_a 300 (1000 * giga) w_payload = Ok true) /\
+  (check_payload w_mac w_secret_a 300 (1000 * giga) (w_payload ++ [48%N]) = Ok false) /\
+  (check_payload w_mac w_secret_a 300 (1000 * giga) (w_payload ++ [33%N]) = Ok false) /\
+  (check_payload w_mac w_secret_a 300 (1000 * giga) (w_payload ++ [48; 103]%N) = Ok false) /\
+  (check_payload_lenient w_mac w_secret_a 300 (1000 * giga) (w_payload ++ [48%N]) = Ok true) /\
+  (check_payload_lenient w_mac w_secret_a 300 (1000 * giga) (w_payload ++ [33%N]) = Ok true) /\
+  (check_payload_lenient w_mac w_secret_a 300 (1000 * giga) (w_payload ++ [48; 103]%N) = Ok true).
+Proof. repeat split; vm_compute; reflexivity. Qed.
